@@ -237,6 +237,37 @@ def replay(name, ob, model, uni):
 
 def replay_known(k, uni):
     from realise import C12 as R
-    if k.get("id") == "partial-first-write":
+    kid = k.get("id", "")
+    if kid == "partial-first-write":
         return R.partial_first_write()
+    if kid.startswith("replay-"):
+        from realise import extract_model as E
+        return E.run_case(kid[len("replay-"):])[0] == "differs"
     return None
+
+
+def extra(uni, tier, seed):
+    """BOUNDED stand-in (never counted as proved): for seven regions the
+    real CallTreeUtils reports inputs and outputs; the region is executed
+    on the full state and on a state in which only the reported inputs are
+    defined (realise/extract_model.py): every reported output must agree
+    and every modified variable must be a reported output"""
+    from pyvc.runner import Extra
+    from realise import extract_model as E
+    out, n_ok = [], 0
+    for cid, verdict, detail, src in E.cases():
+        if verdict == "differs":
+            out.append(Extra(
+                f"bounded#replay-from-inputs[{cid}]", False, detail[:300],
+                bounded=True, kind="bounded run-time contract: region "
+                "replayed from the reported inputs",
+                replay={"confirmed": True, "case": cid,
+                        "input": {"source": src}, "observed": detail}))
+        else:
+            n_ok += 1
+    out.append(Extra("bounded#replay-from-inputs", True,
+                     f"{n_ok} regions reproduce their outputs from the "
+                     "reported inputs", kind="bounded run-time contract: 7 "
+                     "regions on the serial evaluator", count=n_ok,
+                     bounded=True))
+    return out
